@@ -48,6 +48,8 @@ func ifaceMethod(c *core.Ctx, pkg, iface, method string) *types.Func {
 }
 
 func runC20(c *core.Ctx) {
+	nPut := checkStoredValuesNeverEmpty(c, "C20.marker-never-empty", inNativeService, c20RawValueWriters)
+	c.Floor("CacheDB.Put sites in the native contracts", nPut, 100)
 	checkRejectedLeavesNothing(c, "C20.rejected-leaves-nothing")
 	accessorPairs(c, "C20.accessor-keys", 6, "native/service/cross_chain_manager/btc", "native/service/cross_chain_manager/ripple", "native/service/cross_chain_manager/consensus_vote")
 	check := eng.Obj(c, pkCCMCom, "CheckDoneTx")
